@@ -724,6 +724,15 @@ func (r *CheckRun) writeEvidence(total, discharged, violations int, samples []in
 	if len(samples) == 0 {
 		samples = append(samples, "none")
 	}
+	// obligations discharged per back end (as measured on this run)
+	byBackend := map[string]int{}
+	for _, o := range obls {
+		if o["status"] == "discharged" {
+			if sv, ok := o["solver"].(string); ok {
+				byBackend[sv]++
+			}
+		}
+	}
 	ev := map[string]interface{}{
 		"property_id": r.Prop,
 		"tier":        r.Tier,
@@ -740,7 +749,8 @@ func (r *CheckRun) writeEvidence(total, discharged, violations int, samples []in
 			"obligation_list":          obls,
 			"solver_time_s":            float64(solverMs) / 1000,
 			"known_findings_printed":   known,
-			"back_ends":                "z3-new 5.1.0 (incremental, first pass); z3 4.8.12, z3-new, cvc5 1.0.3 raced on every obligation not discharged in the first pass",
+			"back_ends":                "SMT: z3-new 5.1.0 first (deterministic resource limit), then z3 4.8.12 / z3-new / cvc5 1.0.3 raced; thorough tier re-checks every proof on the other two. Non-SMT back ends, each decided on the real artefacts: ground-eval (embedded data with the real library functions), table-eval (tables produced by running the real constructors), json-judgement (derivation over the type declarations)",
+			"discharged_by_back_end":   byBackend,
 		},
 		"assumptions": engineAssumptions,
 		"wall_s":      time.Since(r.T0).Seconds(),
